@@ -30,9 +30,12 @@ def register(R):
     TH = "nrel/hive/util/time_helpers.py::"
     s = R.spec(TH + "time_diff", arg_types={"start": IntT, "end": IntT}, ret=IntT)
     s.opaque = True
-    s.assume_only("datetime arithmetic: datetime.time values are modelled as seconds of day, a timedelta as seconds")
+    # verified from the real body over the seconds model of datetime (datetime.combine(date.min, t) = t seconds, a timedelta =
+    # whole seconds, timedelta.days = floor(seconds / 86400)): the waiting / travel time reported is the cyclic difference
+    s.requires("times_of_day", lambda a: And(a.start >= 0, a.start < 86400, a.end >= 0, a.end < 86400))
     s.ensures("cyclic_difference", lambda a, r: And(r >= 0, r < 86400,
-              Or(r == a.end - a.start, r == a.end - a.start + 86400)))
+              Or(r == a.end - a.start, r == a.end - a.start + 86400)), ("C19",))
+    s.no_raise(("C19",))
     s = R.spec(VEO + "report_pickup_request")
     s.opaque = True
     s.report("PICKUP_REQUEST_EVENT", lambda a: {
@@ -65,6 +68,26 @@ def register(R):
                                                    "dropoff_time": a.sim.sim_time})
     s.report_props = ("C19", "C03")
     # raises IndexError for a request without passengers (excluded by Request.build's assert): not claimed no-raise
+
+    # ------------------------------------------------------------ pooling: closing out a trip phase (C05, C03)
+    def _late_pooling():
+        k = SOPS + "complete_trip_phase"
+        s = R.spec(k)
+        s.requires("wf", WF_PRE)
+        s.requires("vehicle_of_state", lambda a: And(a.sim.vehicles.has(a.vehicle.id), a.sim.vehicles.get(a.vehicle.id).val() == a.vehicle))
+        TP = world.class_ty("TripPhase")
+
+        def ctp_post(a, r):
+            s2 = r[1].val()
+            vid = a.vehicle.id
+            req = a.sim.requests.get(a.active_trip.request_id).val()
+            pickup = a.active_trip.trip_phase == Sym(TP, TP.const("PICKUP"))
+            # a committed pooling pickup credits the fare of the boarded request to the vehicle and removes the request
+            return Implies(And(ok(r), pickup), And(s2.vehicles.has(vid), a.sim.requests.has(a.active_trip.request_id),
+                                                   s2.vehicles.get(vid).val().balance == a.vehicle.balance + req.value,
+                                                   Not(s2.requests.has(a.active_trip.request_id))))
+        s.ensures("pooling_pickup_credits_the_fare", ctp_post, ("C05", "C03"))
+    R._late_pooling = _late_pooling
 
     # ------------------------------------------------------------ pick up / drop off (C03, C05)
     s = R.spec(SOPS + "pick_up_trip")
@@ -255,3 +278,4 @@ def register(R):
         And(ok(r), a.next_state.instance_id != a.prev_state.instance_id),
         r[1].val().vehicles.get(a.prev_state.vehicle_id).val().vehicle_state.instance_id != a.prev_state.instance_id), ("C09",))
     s.no_raise(("C09",))
+    R._late_pooling()
